@@ -1,6 +1,7 @@
 package rules
 
 import (
+	"sort"
 	"fmt"
 	"go/types"
 	"os"
@@ -543,4 +544,17 @@ func modifyStore(m ssa.CallInstruction) string {
 		}
 	}
 	return "CONFIG" // zero value of the enum
+}
+
+// timerCallbacks: the functions handed to NewTransactionCancelTimer as the expiry callback (a method value such as
+// t.rollback, a closure, or a method of a small struct) - found by use, not by name.
+func timerCallbacks(w *core.World) []*ssa.Function {
+	var out []*ssa.Function
+	for f, role := range roleFns(w) {
+		if role == "<timer callback>" {
+			out = append(out, f)
+		}
+	}
+	sort.Slice(out, func(i, j int) bool { return core.FuncKey(out[i]) < core.FuncKey(out[j]) })
+	return out
 }
